@@ -124,4 +124,109 @@ htp_status_t c02_stub_addn(htp_table_t *t, const bstr *key, const void *el) {
 }
 #endif
 
+
+/* =====================================================================================================
+ * 2. contract units (dfcc): line predicates, htp_chomp, header parser with provenance-logging stubs
+ * ===================================================================================================== */
+#ifdef C02_CONTRACTS
+#define C02_POFF(p) ((size_t) __CPROVER_POINTER_OFFSET(p))
+#define C02_O(x) __CPROVER_old(x)
+
+/* ---- htp_chomp: removes exactly the trailing CR / LF run; only *len is written ---- */
+int contract_htp_chomp(unsigned char *data, size_t *len)
+__CPROVER_requires(__CPROVER_is_fresh(len, sizeof(*len)) && *len <= VCAP && __CPROVER_is_fresh(data, *len) && g_c02_len0 == *len)
+__CPROVER_assigns(*len)
+__CPROVER_ensures(__CPROVER_return_value >= 0 && __CPROVER_return_value <= 2)
+__CPROVER_ensures(*len <= C02_O(*len) && ((__CPROVER_return_value == 0) == (*len == C02_O(*len))))
+__CPROVER_ensures(*len == 0 || !C02_ISCRLF(data[*len - 1]))
+__CPROVER_ensures((gk >= *len && gk < C02_O(*len)) ==> C02_ISCRLF(data[gk]))
+__CPROVER_ensures((gj >= *len && gj < C02_O(*len)) ==> C02_ISCRLF(data[gj]))
+;
+/* the same contract for a call site where len is the caller's local and data an interior / borrowed pointer (HOWTO 4) */
+int contract_c02_chomp_site(unsigned char *data, size_t *len)
+__CPROVER_requires(__CPROVER_rw_ok(len, sizeof(*len)) && __CPROVER_r_ok(data, *len))
+__CPROVER_assigns(*len)
+__CPROVER_ensures(__CPROVER_return_value >= 0 && __CPROVER_return_value <= 2)
+__CPROVER_ensures(*len <= C02_O(*len) && ((__CPROVER_return_value == 0) == (*len == C02_O(*len))))
+__CPROVER_ensures(*len == 0 || !C02_ISCRLF(data[*len - 1]))
+__CPROVER_ensures((gk >= *len && gk < C02_O(*len)) ==> C02_ISCRLF(data[gk]))
+__CPROVER_ensures((gj >= *len && gj < C02_O(*len)) ==> C02_ISCRLF(data[gj]))
+;
+
+/* ---- line predicates ---- */
+int contract_htp_is_line_empty(unsigned char *data, size_t len)
+__CPROVER_requires(len <= VCAP && __CPROVER_is_fresh(data, len))
+__CPROVER_assigns()
+__CPROVER_ensures(__CPROVER_return_value == (((len == 1 && C02_ISCRLF(data[0])) || (len == 2 && data[0] == 13 && data[1] == 10)) ? 1 : 0))
+;
+int contract_htp_is_line_whitespace(unsigned char *data, size_t len)
+__CPROVER_requires(len <= VCAP && __CPROVER_is_fresh(data, len))
+__CPROVER_assigns()
+__CPROVER_ensures(__CPROVER_return_value == 0 || __CPROVER_return_value == 1)
+__CPROVER_ensures(__CPROVER_return_value == 1 ==> (gk < len ==> ISSP(data[gk])))
+__CPROVER_ensures((gk < len && !ISSP(data[gk])) ==> __CPROVER_return_value == 0)
+__CPROVER_ensures(len == 0 ==> __CPROVER_return_value == 1)
+;
+int contract_htp_connp_is_line_folded(unsigned char *data, size_t len)
+__CPROVER_requires(len <= VCAP && (data == NULL || __CPROVER_is_fresh(data, len)))
+__CPROVER_assigns()
+__CPROVER_ensures((data == NULL || len == 0) ==> __CPROVER_return_value == -1)
+__CPROVER_ensures((data != NULL && len > 0) ==> __CPROVER_return_value == ((ISLWS(data[0]) || data[0] == 0) ? 1 : 0))
+;
+
+/* ---- stubs ---- */
+void contract_c02_htp_log(htp_connp_t *connp, const char *file, int line, enum htp_log_level_t level, int code, const char *fmt, ...)
+__CPROVER_requires(1) __CPROVER_assigns() __CPROVER_ensures(1);
+
+/* bstr_dup_mem: the source range must lie inside the input line (ASSERTED at every call site: "no byte is taken from anywhere
+ * else"); the call is logged in the first free slot; the answer is NULL exactly when the prophecy says so */
+#define C02_OFF(data) (C02_POFF(data) - C02_POFF(g_c02_base))
+#define C02_LOG_ASSIGNS g_c02_d1, g_c02_d2, g_c02_d3, g_c02_o1, g_c02_l1, g_c02_o2, g_c02_l2, g_c02_o3, g_c02_l3, g_c02_r1, g_c02_r2, g_c02_r3
+#define C02_KEEP(n) (g_c02_d##n == C02_O(g_c02_d##n) && g_c02_o##n == C02_O(g_c02_o##n) && g_c02_l##n == C02_O(g_c02_l##n) && g_c02_r##n == C02_O(g_c02_r##n))
+#define C02_PUT(n, data, len, rv) (g_c02_d##n == 1 && g_c02_o##n == C02_OFF(data) && g_c02_l##n == (len) && g_c02_r##n == (const void *) (rv) && \
+                                   (((rv) == NULL) == (((g_c02_fail >> ((n) - 1)) & 1u) != 0)))
+bstr *contract_c02_dup_mem(const void *data, size_t len)
+__CPROVER_requires(g_c02_d3 == 0)
+__CPROVER_requires(__CPROVER_same_object(data, g_c02_base) && C02_POFF(data) >= C02_POFF(g_c02_base) && C02_OFF(data) <= g_c02_len && len <= g_c02_len - C02_OFF(data))
+__CPROVER_assigns(C02_LOG_ASSIGNS)
+/* is_fresh FIRST: in replace mode it ASSIGNS the return value; the log clauses below must see the final pointer */
+__CPROVER_ensures(__CPROVER_return_value == NULL || __CPROVER_is_fresh(__CPROVER_return_value, sizeof(bstr)))
+__CPROVER_ensures(C02_O(g_c02_d1) == 0 ? (C02_PUT(1, data, len, __CPROVER_return_value) && C02_KEEP(2) && C02_KEEP(3))
+                : C02_O(g_c02_d2) == 0 ? (C02_KEEP(1) && C02_PUT(2, data, len, __CPROVER_return_value) && C02_KEEP(3))
+                                        : (C02_KEEP(1) && C02_KEEP(2) && C02_PUT(3, data, len, __CPROVER_return_value)))
+;
+/* bstr_free on the duplicates: NULL is a no-op; a second release of the same string is refused (asserted at the call site) */
+void contract_c02_bstr_free(bstr *b)
+__CPROVER_requires(b == NULL || ((const void *) b == g_c02_r1 && g_c02_f1 == 0) || ((const void *) b == g_c02_r2 && g_c02_f2 == 0))
+__CPROVER_assigns(g_c02_f1, g_c02_f2)
+__CPROVER_ensures(g_c02_f1 == ((b != NULL && (const void *) b == g_c02_r1) ? 1 : C02_O(g_c02_f1)))
+__CPROVER_ensures(g_c02_f2 == ((b != NULL && (const void *) b != g_c02_r1 && (const void *) b == g_c02_r2) ? 1 : C02_O(g_c02_f2)))
+;
+
+/* ---- htp_parse_response_header_generic, any line length ----
+ * Post: exactly two duplications, name first; the name starts at the start of the line; both ranges lie inside the line (also
+ * asserted per call by the stub); name before value; EVERY byte of the line outside the two ranges is a colon, white space or a
+ * line terminator (nothing dropped); on OK the header carries the two duplicates, on ERROR each non-NULL duplicate was released
+ * exactly once; nothing but h's three fields and the transaction flags is written. */
+htp_status_t contract_htp_parse_response_header_generic(htp_connp_t *connp, htp_header_t *h, unsigned char *data, size_t len)
+__CPROVER_requires(__CPROVER_is_fresh(connp, sizeof(*connp)) && __CPROVER_is_fresh(connp->out_tx, sizeof(htp_tx_t)) && __CPROVER_is_fresh(h, sizeof(*h)))
+__CPROVER_requires(len <= VCAP && __CPROVER_is_fresh(data, VCAP))      /* constant-size input object, symbolic length */
+__CPROVER_requires(g_c02_base == (const void *) data && g_c02_len == len && g_c02_d1 == 0 && g_c02_d2 == 0 && g_c02_d3 == 0 && g_c02_f1 == 0 && g_c02_f2 == 0)
+__CPROVER_requires(gk < VCAP)
+#ifdef KNOWN_F_C02_RESP_HDR_LEN0
+/* known finding F1: the line is not empty after removing its CR / LF bytes (gj = existential witness of a byte that stays) */
+__CPROVER_requires(gj < len && !C02_ISCRLF(data[gj]))
+#endif
+__CPROVER_assigns(h->name, h->value, h->flags, connp->out_tx->flags, C02_LOG_ASSIGNS, g_c02_f1, g_c02_f2)
+__CPROVER_ensures(__CPROVER_return_value == HTP_OK || __CPROVER_return_value == HTP_ERROR)
+__CPROVER_ensures(g_c02_d1 == 1 && g_c02_d2 == 1 && g_c02_d3 == 0)
+__CPROVER_ensures(g_c02_o1 == 0 && g_c02_l1 <= g_c02_o2 && g_c02_o2 <= len && g_c02_l2 <= len - g_c02_o2)
+__CPROVER_ensures((gk < len && !(gk < g_c02_l1) && !(gk >= g_c02_o2 && gk < g_c02_o2 + g_c02_l2)) ==> (C02_O(data[gk]) == ':' || ISSP(C02_O(data[gk]))))
+__CPROVER_ensures((__CPROVER_return_value == HTP_OK) == ((g_c02_fail & 3u) == 0))
+__CPROVER_ensures(__CPROVER_return_value == HTP_OK ==> ((const void *) h->name == g_c02_r1 && (const void *) h->value == g_c02_r2 && g_c02_f1 == 0 && g_c02_f2 == 0))
+__CPROVER_ensures(__CPROVER_return_value == HTP_ERROR ==> (g_c02_f1 == (g_c02_r1 != NULL) && g_c02_f2 == (g_c02_r2 != NULL)))
+__CPROVER_ensures((h->flags & C02_O(h->flags)) == C02_O(h->flags) && (connp->out_tx->flags & C02_O(connp->out_tx->flags)) == C02_O(connp->out_tx->flags))
+;
+#endif
+
 #endif
